@@ -182,6 +182,8 @@ def apply_step(stack, st, descs, nm=IDENT):
         return stack + [descs[st[1]]]
     if op == "dup":
         return stack + [top]
+    if op == "swap":
+        return stack[:-2] + [top, stack[-2]]
     if op == "extend":
         new = top.extend({nm.c(a[0]): etext(a[1], nm) for a in st[1]})
     elif op == "wextend":
